@@ -313,6 +313,65 @@ def run(tier, seed):
         rep.obligation("O-C13a: layout specification (layoutOk) on the text of the real scripts", "O", not ofail, json.dumps(ofail[:2], default=str)[:1500])
         na, no_a = len(kdis), len(ofail)
 
+        # ---- K-C13r: the role sections the parser refuses (the premise of parser_guarantees_distinct_actions) ----
+        n_r = 60 if tier == "quick" else 1200
+        kdis_r = []
+        for n in range(n_r):
+            g = fill_commands(rng, gen_cast(rng, False), False)
+            kind = rng.pick(["own-duplicate", "inherited-duplicate", "role-duplicate", "unknown-parent", "forward-parent", "none"])
+            roles = g["roles"]
+            if kind == "own-duplicate":
+                cand = [r_ for r_ in roles if r_["actions"]]
+                if cand:
+                    r_ = rng.pick(cand)
+                    r_["actions"].insert(rng.below(len(r_["actions"]) + 1), rng.pick(r_["actions"]))
+                else:
+                    kind = "none"
+            elif kind == "inherited-duplicate":
+                cand = [r_ for r_ in roles if r_["parent"] and g["eff"][r_["parent"]]["actions"]]
+                if cand:
+                    r_ = rng.pick(cand)
+                    nm, src = rng.pick(g["eff"][r_["parent"]]["actions"])
+                    r_["actions"].insert(rng.below(len(r_["actions"]) + 1), nm)
+                    g["cmds"][(r_["name"], nm)] = g["cmds"][(src, nm)] if rng.chance(1, 2) else "echo redefined"
+                elif len(roles) >= 2:
+                    # make the second role extend the first (which always has an action) and repeat one of its actions
+                    roles[1]["parent"] = "r0"
+                    nm = rng.pick(roles[0]["actions"])
+                    roles[1]["actions"].insert(rng.below(len(roles[1]["actions"]) + 1), nm)
+                    g["cmds"][("r1", nm)] = "echo redefined"
+                else:
+                    kind = "none"
+            elif kind == "role-duplicate":
+                r_ = rng.pick(roles)
+                roles.append(dict(r_, actions=list(r_["actions"])))
+            elif kind == "unknown-parent":
+                rng.pick(roles)["parent"] = "r9"
+            elif kind == "forward-parent":
+                k = rng.below(len(roles))
+                roles[k]["parent"] = "r%d" % rng.range(k, len(roles) - 1)    # itself or a later role
+            text = config_text(g, False)
+            cwd = os.path.join(scratch, "r%d" % n)
+            os.makedirs(cwd)
+            sub = "%014d" % (20260930100000 + n)
+            r = impl.call("prepdirs", Args={"Text": text}, Cwd=cwd, DataDir="out", SubDir=sub)
+            rt, ct = tokens(g)
+            m = model.ask("C13 scripts %s %s %s %s %s %s" % (hexs(shell), hexs(cwd), hexs("out"), hexs(sub), rt, ct))
+            rep.case(("roles", kind, text))
+            rep.count("rejections:" + kind)
+            err = r.get("err") or ""
+            for phrase in ("duplicate action name", "duplicate role definition", "unknown role"):
+                if phrase in err:
+                    rep.count("rejections:impl says " + phrase)
+            impl_rej = bool(err)
+            model_rej = (m == "rejected")
+            if r.get("harnessError") or r.get("panicked") or m in (None, "bad-op") or impl_rej != model_rej or (kind == "none") == impl_rej:
+                kdis_r.append({"kind": kind, "config": text, "impl": {k: v for k, v in r.items() if k != "scripts"}, "model": (m or "")[:200]})
+        rep.obligation("K-C13r: %d role sets with a repeated action (own or inherited), a repeated role name, an unknown or forward parent, or none of these: refused by the parser iff refused by defineRoles" % n_r,
+                       "K", not kdis_r, json.dumps(kdis_r[:2], default=str)[:1800])
+        kdis += kdis_r
+        na = len(kdis)
+
         # ---- K/O-C13b: real plays with a ledger -------------------------------------------------------
         n_b = 24 if tier == "quick" else 300
         plays, gs = [], []
